@@ -78,7 +78,7 @@ def place_str(pl):
 class Body:
     __slots__ = ("rec", "path", "crate", "kind", "file", "line", "blocks", "locals", "names",
                  "_succ", "_pred", "_dom", "_pdom", "_defs", "root", "self_ty", "trait",
-                 "derived", "expn", "argc", "_reach")
+                 "derived", "expn", "argc", "_reach", "_borrowed")
 
     def __init__(self, rec, crate):
         self.rec = rec
@@ -97,6 +97,7 @@ class Body:
         self.expn = rec.get("x", False)
         self.argc = rec["argc"]
         self._succ = self._pred = self._dom = self._pdom = self._defs = self._reach = None
+        self._borrowed = None
 
     # ---- naming -------------------------------------------------------
     def local_name(self, l):
@@ -152,12 +153,26 @@ class Body:
     def _const_local(self, l):
         """value of a local whose only definition (anywhere in the body) is a literal: the shape
         `_8 = const false; switchInt(move _8)` that cfg!(debug_assertions) produces"""
-        if l is None:
+        if l is None or l in self.borrowed():
             return None
         ds = self.defs().get(l, [])
         if len(ds) == 1 and ds[0][2] == "assign" and ds[0][3]["k"] == "use":
             return op_const(ds[0][3]["a"])
         return None
+
+    def borrowed(self):
+        """locals whose address is taken somewhere in the body (they may change through the pointer)"""
+        if getattr(self, "_borrowed", None) is None:
+            s = set()
+            for b in self.blocks:
+                for st in b["s"]:
+                    rv = st.get("rv")
+                    if rv and rv["k"] in ("ref", "raw"):
+                        pl = rv["pl"]
+                        if isinstance(pl, int) or "*" not in pl["p"]:
+                            s.add(pl_local(pl))
+            self._borrowed = s
+        return self._borrowed
 
     def pred(self):
         if self._pred is None:
